@@ -377,3 +377,53 @@ pub fn run(args: &Args, rep: &mut Report) {
         }
     });
 }
+
+/// Every scalar value inside a command name that Tab has to complete, with the free space of the buffer ending before, inside
+/// (after each of its octets) and after the character: the completion must stop at a character boundary (C17: the library's
+/// indexing computations agree with UTF-8 for every scalar value; C11: extends as far as the buffer permits; C02: the line stays
+/// well-formed). Names are offered by the run-time `Autocomplete` of C11-dyn.
+pub fn run_complete(args: &Args, rep: &mut Report) {
+    use crate::declrun::tab_through_cli;
+    use crate::props::c11dyn::{DynNames, DYN_NAMES};
+    use crate::refmodel::ref_complete;
+    let chunks = (0x110000 / CHUNK) as u64;
+    run_cases(args, "C17", chunks, rep, &mut |c, rep| {
+        if !mine(args, c) {
+            rep.cases -= 1;
+            return;
+        }
+        let mut n = 0u64;
+        for ch in scalars_of_chunk(c) {
+            if (ch as u32) < 0x80 || ch == '\u{fffd}' {
+                continue;
+            }
+            n += 1;
+            // one candidate (`s<c>t`), and two that part company after the character (`s<c>a`, `s<c>b`: continuation = the character)
+            let sets: [Vec<String>; 2] = [vec![format!("s{}t", ch)], vec![format!("s{}a", ch), format!("s{}b", ch)]];
+            for names in sets.iter() {
+                DYN_NAMES.with(|d| *d.borrow_mut() = names.clone());
+                let mut names_help = names.clone();
+                names_help.push("help".into());
+                let line = "s";
+                for cap in 1..=(1 + ch.len_utf8() + 2) {
+                    let (post, term_ok) = tab_through_cli::<DynNames>(line, 0, cap);
+                    rep.evaluations += 1;
+                    let (allowed, _class, _n) = ref_complete(line, false, &names_help, cap);
+                    let input = J::s(format!("U+{:04X} names {:?} capacity {}", ch as u32, names, cap));
+                    if post.contains('\u{fffd}') {
+                        report(rep, args, "C17", "completion-cut-inside-character", &format!("{}-byte", ch.len_utf8()), c, 1, input.clone(), format!("names {:?}: Tab on \"s\" in a {}-byte buffer leaves a line that is not well-formed UTF-8: {:?}", names, cap, post));
+                        report(rep, args, "C02", "handout-illformed", "completion-cut-inside-character", c, 1, input.clone(), format!("names {:?}: Tab on \"s\" in a {}-byte buffer leaves a line that is not well-formed UTF-8: {:?}", names, cap, post));
+                    }
+                    if !allowed.contains(&post) {
+                        report(rep, args, "C17", "completion-around-character", &format!("{}-byte", ch.len_utf8()), c, 1, input.clone(), format!("names {:?}: Tab on \"s\" in a {}-byte buffer gives {:?}; allowed {:?}", names, cap, post, allowed));
+                        report(rep, args, "C11", "completion", "every-scalar", c, 1, input, format!("names {:?}: Tab on \"s\" in a {}-byte buffer gives {:?}; allowed {:?}", names, cap, post, allowed));
+                    } else if !term_ok.0 {
+                        report(rep, args, "C17", "echo-after-completion", &format!("{}-byte", ch.len_utf8()), c, 1, input, format!("names {:?}: after Tab in a {}-byte buffer the terminal shows {:?}, the line is {:?}", names, cap, term_ok.1, post));
+                    }
+                }
+            }
+        }
+        rep.distinct_disjoint += n;
+        rep.count_n("c17.complete.scalars", n);
+    });
+}
